@@ -3,7 +3,7 @@ import CanvasGen.CoreK
 import Mathlib.Tactic.Ring
 import Mathlib.Tactic.Linarith
 /-! The C19 model instantiated with the generated (`GenK`) definitions of /repo/util.go over an arbitrary
-linearly ordered field.  `Path.checkDash` (`cd`) stays arbitrary.  The three geometric questions of
+linearly ordered field.  the dash decision of `Context.DrawPath` (`cd`: checkDash in stroke-width units + dashCanonical) stays arbitrary.  The three geometric questions of
 the path builder are taken in their exact-arithmetic reading (Epsilon → 0 inside them): "the new
 segment is parallel to the previous one and points the same way", and ArcTo's canonical form for
 rot = 0 without radius correction; tan = sin / cos; Path.Transform's arc case for axis-parallel matrices. `Equal` itself is the generated definition with its Epsilon. -/
@@ -41,7 +41,7 @@ def transformArcK (m : Mat K) (rx ry _phi : K) (sweep : Bool) : K × K × K × B
   let sw := if m.a * m.e < 0 then !sweep else sweep
   if a < b then (b, a, Env.pi / 2, sw) else (a, b, 0, sw)
 
-def opsK (cd : K → List K → K → List K × Bool) : Ops K :=
+def opsK (cd : K → K → List K → K → List K × Bool) : Ops K :=
   { arithK with
     ident := ⟨1, 0, 0, 0, 1, 0⟩,
     mmul := Matrix.Mul, translate := Matrix.Translate, scale := Matrix.Scale,
